@@ -34,9 +34,9 @@ META = {
 }
 
 
-def _model_and_replay(ctx, rep, cfg, label, workers, jobs):
+def _model_and_replay(ctx, rep, spec, cfg, label, workers, jobs):
     cases = os.path.join(ctx.tmp, "%s.cases" % cfg)
-    ctx.model("VarHeap", cfg, emit_to=cases, timeout=ctx.pick(900, 3400), xmx="8g", workers=workers)
+    ctx.model(spec, cfg, emit_to=cases, timeout=ctx.pick(900, 3400), xmx="8g", workers=workers)
     m = ctx.replay(rep, cases, label=label, timeout=ctx.pick(900, 5400), jobs=jobs, args=["--batch", "1000"])
     os.unlink(cases)
     return m
@@ -48,17 +48,18 @@ def run(ctx):
     rec = vlib.build_harness(lib, "c04_record", ["c04_record.cpp"])
     tier = "quick" if ctx.quick else "thorough"
     ncpu = vlib.NCPU
+    # (two spellings of the module name: see checks/C02.py)
     groups = [
-        [("MC_VarHeap_%s" % tier, "R/VarHeap", max(2, ncpu // 2), ncpu)],
-        [("MC_VarHeap_scalars_%s" % tier, "R/VarHeap-scalars", max(2, ncpu // 5), max(2, ncpu // 4))],
+        [("VarHeap", "MC_VarHeap_%s" % tier, "R/VarHeap", max(2, ncpu // 2), ncpu)],
+        [("VarHeap.tla", "MC_VarHeap_scalars_%s" % tier, "R/VarHeap-scalars", max(2, ncpu // 5), max(2, ncpu // 4))],
     ]
     if not ctx.quick:
-        groups[1].append(("MC_VarHeap_deep1_thorough", "R/VarHeap-deep1", max(2, ncpu // 4), max(2, ncpu // 2)))
-        groups.append([("MC_VarHeap_deep_thorough", "R/VarHeap-deep", max(2, ncpu // 3), max(2, ncpu // 2))])
+        groups[1].append(("VarHeap.tla", "MC_VarHeap_deep1_thorough", "R/VarHeap-deep1", max(2, ncpu // 3), max(2, ncpu // 2)))
+        groups[1].append(("VarHeap.tla", "MC_VarHeap_deep_thorough", "R/VarHeap-deep", max(2, ncpu // 3), max(2, ncpu // 2)))
 
     def group(g):
-        for cfg, label, wk, jb in g:
-            _model_and_replay(ctx, rep, cfg, label, wk, jb)
+        for spec, cfg, label, wk, jb in g:
+            _model_and_replay(ctx, rep, spec, cfg, label, wk, jb)
 
     def traces():
         files = ctx.record(rec, ctx.pick(8, 32), ctx.pick(5000, 20000), "V/VarHeap")
